@@ -16,6 +16,7 @@
 #include <cstdio>
 #include <cstdlib>
 #include <functional>
+#include <initializer_list>
 #include <set>
 #include <string>
 #include <thread>
@@ -41,7 +42,21 @@ struct Kind {
   std::string name;
   std::vector<Op> ops;
   std::vector<long> expected;
+  // byte images of the shared objects the operations read (object representation, then the elements with their addresses):
+  // a const operation that changes one of them writes to memory every concurrent reader reads - a sequential witness of a race
+  std::vector<std::function<std::string()>> images;
 };
+
+template <class C>
+std::string imageOf(const C *pc) {
+  std::string r(reinterpret_cast<const char *>(pc), sizeof(C));
+  for (auto it = pc->begin(); it != pc->end(); ++it) {
+    const void *a = static_cast<const void *>(&*it);
+    r.append(reinterpret_cast<const char *>(&a), sizeof(a));
+    r.append(reinterpret_cast<const char *>(&*it), sizeof(*it));
+  }
+  return r;
+}
 
 template <class It>
 long sumRange(It b, It e) {
@@ -55,6 +70,8 @@ template <class V>
 void vectorOps(Kind &k, const V &v, const V &other) {
   const V *pv = &v;
   const V *po = &other;
+  k.images.push_back([pv] { return imageOf(pv); });
+  k.images.push_back([po] { return imageOf(po); });
   k.ops.push_back({"size", [pv] { return static_cast<long>(pv->size()); }});
   k.ops.push_back({"empty", [pv] { return static_cast<long>(pv->empty()); }});
   k.ops.push_back({"capacity", [pv] { return static_cast<long>(pv->capacity()); }});
@@ -110,6 +127,8 @@ template <class S>
 void setOps(Kind &k, const S &s, const S &other, int maxKey) {
   const S *ps = &s;
   const S *po = &other;
+  k.images.push_back([ps] { return imageOf(ps); });
+  k.images.push_back([po] { return imageOf(po); });
   k.ops.push_back({"size", [ps] { return static_cast<long>(ps->size()); }});
   k.ops.push_back({"empty", [ps] { return static_cast<long>(ps->empty()); }});
   k.ops.push_back({"max_size", [ps] { return static_cast<long>(ps->max_size() > 0); }});
@@ -202,6 +221,12 @@ template <class C>
 C makeVec(int n, int mul) {
   C c;
   for (int i = 0; i < n; ++i) c.push_back((i * mul + 3) % 17);
+  return c;
+}
+template <class C>
+C makeSetOf(std::initializer_list<int> keys) {  // insertion order kept by the inline state of SmallSet
+  C c;
+  for (int k : keys) c.insert(k);
   return c;
 }
 template <class C>
@@ -325,6 +350,7 @@ int main(int argc, char **argv) {
   const FS fs = makeSet<FS>(12, 5), fs2 = makeSet<FS>(12, 7);
   const FST fst = makeSet<FST>(12, 5), fst2 = makeSet<FST>(5, 7);
   const SS ssSmall = makeSet<SS>(3, 5), ssSmall2 = makeSet<SS>(2, 7), ssLarge = makeSet<SS>(9, 5), ssLarge2 = makeSet<SS>(9, 7);
+  const SS ssUnsorted = makeSetOf<SS>({13, 2, 8}), ssUnsorted2 = makeSetOf<SS>({13, 8, 2});
   const SST sstSmall = makeSet<SST>(3, 5), sstLarge = makeSet<SST>(9, 5);
   const SSF ssfSmall = makeSet<SSF>(3, 5), ssfLarge = makeSet<SSF>(9, 5), ssfLarge2 = makeSet<SSF>(7, 7);
 
@@ -333,7 +359,7 @@ int main(int argc, char **argv) {
     kinds.push_back(Kind{name, {}, {}});
     return kinds.back();
   };
-  kinds.reserve(32);
+  kinds.reserve(40);
   vectorOps(addKind("vector"), vec, vec2);
   vectorOps(addKind("vector_empty"), vecEmpty, vec);
   vectorOps(addKind("SmallVector4_inline"), svInline, svHeap);
@@ -352,6 +378,8 @@ int main(int argc, char **argv) {
     transparentBounds(k, fst, 23);
   }
   setOps(addKind("SmallSet3_small"), ssSmall, ssSmall2, 23);
+  setOps(addKind("SmallSet3_small_unsorted"), ssUnsorted, ssUnsorted2, 23);
+  setOps(addKind("SmallSet3_large_vs_small_unsorted"), ssLarge2, ssUnsorted2, 23);
   setOps(addKind("SmallSet3_small_vs_large"), ssSmall, ssLarge, 23);
   setOps(addKind("SmallSet3_large_vs_small"), ssLarge, ssSmall, 23);
   setOps(addKind("SmallSet3_large"), ssLarge, ssLarge2, 23);
@@ -372,7 +400,18 @@ int main(int argc, char **argv) {
   // sequential results
   long nOps = 0;
   for (Kind &k : kinds) {
-    for (Op &o : k.ops) k.expected.push_back(o.f());
+    for (Op &o : k.ops) {
+      std::vector<std::string> before;
+      for (auto &im : k.images) before.push_back(im());
+      k.expected.push_back(o.f());
+      for (std::size_t j = 0; j < k.images.size(); ++j) {
+        if (k.images[j]() != before[j]) {
+          std::printf("MISMATCH kind=%s op=%s the const operation modified the bytes of the shared %s object\n", k.name.c_str(), o.name.c_str(),
+                      j == 0 ? "first" : "second");
+          gMismatches.fetch_add(1);
+        }
+      }
+    }
     nOps += static_cast<long>(k.ops.size());
   }
   // and once more: the operations are deterministic functions of the (unchanged) shared state
